@@ -282,7 +282,7 @@ func (P *Program) contractEffect(fc *FuncContract, sig *types.Signature, recvIfa
 		return
 	}
 	e.alloc = true
-	env := map[string]types.Type{}
+	env := map[string]types.Type{"$pkg": &pkgMarker{path: fc.PkgPath}}
 	if sig.Recv() != nil {
 		env[sig.Recv().Name()] = sig.Recv().Type()
 		env["self"] = sig.Recv().Type()
@@ -332,6 +332,15 @@ func (P *Program) modExprKeys(m ast.Expr, env map[string]types.Type, out map[str
 		id, ok := ex.Fun.(*ast.Ident)
 		if !ok || len(ex.Args) != 1 {
 			return false
+		}
+		if id.Name == "allof" {
+			pkg := P.pkgOf(env["$pkg"].(*pkgMarker).path)
+			t, err := P.resolveType(ex.Args[0], pkg)
+			if err != nil {
+				return false
+			}
+			keysOfPointee(t, out)
+			return true
 		}
 		t := P.staticType(ex.Args[0], env)
 		if t == nil {
@@ -461,4 +470,10 @@ func dynName(v ssa.Value) string {
 		}
 	}
 	return "?"
+}
+
+// pkgMarker smuggles the contract's package path through the static type environment.
+type pkgMarker struct {
+	types.Type
+	path string
 }
